@@ -7,21 +7,25 @@
 (*  file{fmt,in,out,ok}  export -> import of a palette file                   *)
 (*  vga{r,g,out}      - 64 colours <<r,g,b>>, b=0..63, through the 6-bit codec*)
 EXTENDS Palette, TraceLib
-VARIABLES l, colors
-vars == <<l, colors>>
-
-Init == l = 1 /\ colors = <<>> /\ InitRegs
+VARIABLES l, colors, lk
+vars == <<l, colors, lk>>
+\* lk: what every index the API has defined so far (returned by an insert, or given to a set - whether or not the stored vector
+\* grew) resolved to after the previous operation
+Init == l = 1 /\ colors = <<>> /\ lk = <<>> /\ InitRegs
+LkOf(e) == IF Has(e, "lk") THEN [i \in 1..Len(e.lk) |-> <<e.lk[i][1], e.lk[i][2], e.lk[i][3]>>] ELSE lk
 
 Next ==
   /\ l <= Len(Rec)
   /\ LET e == Rec[l] IN
      /\ Bump(3)
+     /\ lk' = IF e.ev = "reset" THEN [i \in 1..Len(e.colors) |-> <<e.colors[i][1], e.colors[i][2], e.colors[i][3]>>] ELSE LkOf(e)
      /\ CASE e.ev = "reset" -> colors' = e.colors
           [] e.ev = "ins" ->
                LET m == Insert(colors, e.c) IN
                /\ Bump(4)
                /\ Check(InsertResolves(colors, e.c, e.ret, e.colors), "C16", "InsertResolves", l, [c |-> e.c, ret |-> e.ret, len |-> Len(e.colors)])
                /\ Check(IndexStable(colors, e.colors), "C16", "IndexStable", l, [c |-> e.c, ret |-> e.ret])
+               /\ Check(~Has(e, "lk") \/ \A i \in 1..Len(lk) : i <= Len(e.lk) /\ LkOf(e)[i] = lk[i], "C16", "IndexStable", l, [c |-> e.c, ret |-> e.ret, via |-> "lookup-of-defined-indices", defined |-> Len(lk)])
                /\ Check(InsertIdempotent(colors, e.c, e.ret, e.colors), "C16", "InsertIdempotent", l, [c |-> e.c, ret |-> e.ret])
                /\ Expect(m.colors = e.colors /\ m.ret = e.ret, "ins", l, [exp |-> m.ret, got |-> e.ret])
                /\ colors' = e.colors
